@@ -328,7 +328,19 @@ bool Exec<Cfg>::run_real(Op const& op) {
 				}
 				break;
 			case O_RESHAPE: if constexpr(!Cfg::static_arrays) { auto const x = make_exts<D>(op.x); OpScope s; a.reshape(x); } break;
-			case O_ELEM_WRITE: { E const val = ET::make(op.v); OpScope s; elem_at(a, op.x) = val; } break;
+			case O_ELEM_WRITE: {
+				E const val = ET::make(op.v);
+				// the first and the last element are also reachable as elements().front() / .back() of a named flat range: same
+				// element, other access path (chosen by the value written, no PRNG draw)
+				bool last = true, first = true;
+				for(int k = 0; k < D; ++k) { last = last && op.x[k] == M.at(D, op.a).n[k] - 1; first = first && op.x[k] == 0; }
+				OpScope s;
+				if constexpr(D >= 2) {
+					if(last && ((op.v / 1000) & 1) != 0) { auto&& els = a().elements(); els.back() = val; break; }
+					if(first && ((op.v / 1000) & 1) != 0) { auto&& els = a().elements(); els.front() = val; break; }
+				}
+				elem_at(a, op.x) = val;
+			} break;
 			default: handled = false; break;
 			}
 		}) && handled;
